@@ -863,3 +863,155 @@ def bounds(F, R):
             R.ob('C03.bounds', ok, {'func': f.q, 'range_end': f.expr(i)[:80], 'k': k, 'nr_regions_of_owner': nr})
             if not ok:
                 R.find('C03.bounds', f, 'range-end', 'the end of the active-state range of %s is taken at +%d but that machine has %d region(s): %s' % (Facts.short(strip_cvref(t), 80), k, nr, f.expr(i)[:100]), where=f.at(i))
+
+# ------------------------------------------------------------------ copies and serialization (C15, C16)
+
+COPY_EXEMPT = {'m_visitors': 'state visitors are bound to the new machine\'s own states by copy_helper::visitor_helper, not copied',
+               'm_upper_fsm': 'back11: pointer to the containing machine, set when the container wires its substates (fill_states), must not be copied'}
+SER_EXEMPT = {'m_events_queue': 'queues hold type-erased callables and cannot be serialised (documented)',
+              'm_deferred_events_queue': 'queues hold type-erased callables and cannot be serialised (documented)',
+              'm_visitors': 'visitors cannot be serialised (documented), rebuilt at construction',
+              'm_upper_fsm': 'back11: pointer to the containing machine, re-established at construction'}
+
+def members_touched(f):
+    """data members of *this written in a function: plain / compound assignment targets and operator= receivers"""
+    w = set()
+    for i, n in enumerate(f.nodes):
+        if not n: continue
+        if n['k'] == 'asg':
+            m = f.base_member(n['lhs'])
+            l = f.nodes[n['lhs']]
+            if m and l and l['k'] in ('mem', 'sub'):
+                # only members of this (not of rhs)
+                ch = member_chain(f, n['lhs'])
+                if ch: w.add(ch[0])
+        elif n['k'] == 'call' and n.get('op') == '=' and n.get('obj'):
+            ch = member_chain(f, n['obj'])
+            o = f.nodes[n['obj']]
+            if ch and o and o['k'] == 'mem':
+                b = f.nodes[o['b']]
+                if b and b['k'] == 'this': w.add(ch[0])
+    return w
+
+@rule('copyser')
+def copyser(F, R):
+    E = Effects(F)
+    for f in F.funcs:
+        if not f.blocks or backend_of(f) not in ('back', 'back11') or f.cls != 'state_machine': continue
+        be = backend_of(f)
+        rec = F.rec_by_type(F.class_type(f))
+        if rec is None: continue
+        fields = [fd['n'] for fd in rec['fields']]
+        if f.n == 'do_copy':
+            R.seen(f); R.anchor('do_copy:' + be)
+            w = members_touched(f)
+            for i, n in f.calls():
+                if 'W_ACTIVE' in E.call_classes(f, n): w.add('m_states')
+            missing = [x for x in fields if x not in w and x not in COPY_EXEMPT]
+            R.ob('C15.fields', not missing, {'func': f.q, 'fields': fields, 'copied': sorted(w), 'exempt': sorted(COPY_EXEMPT)})
+            if missing: R.find('C15.fields', f, 'missing:' + ','.join(missing), 'do_copy does not copy data member(s) %s of the machine (members: %s)' % (missing, fields))
+            # the states themselves are re-wired to the new machine after the raw copy
+            from rules_order import dependency_closure
+            rewire = False
+            for i, n in f.calls():
+                if n.get('n') == 'for_each':
+                    for a in n['args']:
+                        for d in dependency_closure(f, a):
+                            x = f.nodes[d]
+                            if x and x['k'] == 'ctor' and x.get('pc') == 'copy_helper': rewire = True
+            R.ob('C15.fields', rewire, {'func': f.q, 'rewires_states': rewire})
+            if not rewire: R.find('C15.fields', f, 'no-rewire', 'do_copy does not re-bind the copied states (visitors, back-pointers) to the new machine')
+        if f.n == 'serialize':
+            R.seen(f); R.anchor('serialize:' + be)
+            ref = set()
+            for n in f.nodes:
+                if n and n['k'] == 'mem' and n.get('dk') == 'field': ref.add(n['n'])
+            missing = [x for x in fields if x not in ref and x not in SER_EXEMPT]
+            base_ser = any(n.get('n') == 'base_object' for i, n in f.calls())
+            R.ob('C16.fields', not missing and base_ser, {'func': f.q, 'fields': fields, 'archived': sorted(ref & set(fields)), 'exempt': sorted(SER_EXEMPT), 'front_end_base_archived': base_ser})
+            if missing: R.find('C16.fields', f, 'missing:' + ','.join(missing), 'serialize does not archive data member(s) %s' % missing)
+            if not base_ser: R.find('C16.fields', f, 'no-base', 'serialize does not archive the front-end base object')
+        sp = f.d.get('sp', '')
+        if sp == 'copy_ctor' or f.n == 'operator=':
+            if f.d.get('implicit') or f.d.get('defaulted'): continue
+            R.seen(f); R.anchor('copy-entry:%s:%s' % (be, 'ctor' if sp == 'copy_ctor' else 'assign'))
+            calls = [n.get('n') for i, n in f.calls()]
+            ok = 'do_copy' in calls
+            R.ob('C15.fields', ok, {'func': f.q, 'calls': [c for c in calls if c in ('do_copy', 'fill_states')]})
+            if not ok: R.find('C15.fields', f, 'no-do_copy', 'copy %s does not call do_copy' % ('constructor' if sp == 'copy_ctor' else 'assignment'))
+    # history policies: every member archived and assigned
+    for f in F.funcs:
+        if f.file == 'boost/msm/back/history_policies.hpp' and f.n == 'serialize' and f.blocks:
+            rec = F.rec_by_type(F.class_type(f))
+            if not rec: continue
+            R.seen(f); R.anchor('serialize:history:' + f.cls)
+            ref = {n['n'] for n in f.nodes if n and n['k'] == 'mem' and n.get('dk') == 'field'}
+            missing = [fd['n'] for fd in rec['fields'] if fd['n'] not in ref]
+            R.ob('C16.fields', not missing, {'func': f.q, 'archived': sorted(ref)})
+            if missing: R.find('C16.fields', f, 'missing:' + ','.join(missing), '%s::serialize does not archive %s' % (f.cls, missing))
+    # serialize_state: composite and do_serialize states are archived, others skipped
+    for f in F.funcs:
+        if f.n == 'operator()' and f.cls == 'serialize_state' and backend_of(f) in ('back', 'back11') and f.blocks is not None:
+            ta = f.targs() or []
+            t = strip_cvref(str(ta[0])) if ta else ''
+            rec = F.rec_by_type(t)
+            M = Model(F)
+            should = bool(M.machine_of(t)) or bool(rec and ('do_serialize' in rec['tds'] or any('do_serialize' in (F.rec_by_type(F.strs[b['t']]) or {'tds': {}})['tds'] for b in rec['bases'])))
+            does = any(n.get('op') == '&' or n.get('n') == 'operator&' for i, n in f.calls())
+            R.seen(f); R.anchor('serialize_state:' + backend_of(f))
+            ok = should == does
+            R.ob('C16.fields', ok, {'state': Facts.short(t, 60), 'should_archive': should, 'archives': does})
+            if not ok: R.find('C16.fields', f, 'state-%s' % ('skipped' if should else 'extra'), 'serialize_state<%s>: should archive=%s, archives=%s' % (Facts.short(t, 80), should, does))
+
+@rule('copymp11')
+def copymp11(F, R):
+    """C15.pool / C15.ctor (backmp11) and C15.this (back, back11)."""
+    from rules_rtc import queue_ops
+    from rules_order import dependency_closure
+    # (a) non_propagating<T>: copying / moving a machine must not propagate the root pointer
+    for f in F.funcs:
+        if f.cls == 'non_propagating' and backend_of(f) == 'backmp11' and f.d.get('sp') in ('copy_ctor', 'move_ctor', 'copy_assign', 'move_assign'):
+            R.seen(f); R.anchor('non_propagating:' + f.d['sp'])
+            bad = False
+            for n in f.nodes:
+                if not n: continue
+                if n['k'] == 'init' and n.get('member') == 'm_value' and n.get('written'):
+                    # an initialiser taking the value from the argument
+                    dep = dependency_closure(f, n['e']) if n['e'] else set()
+                    if any(f.nodes[d] and f.nodes[d]['k'] == 'ref' and f.nodes[d].get('dk') == 'param' for d in dep): bad = True
+                if n['k'] == 'asg' and f.base_member(n['lhs']) == 'm_value': bad = True
+            if f.d.get('defaulted') and not f.d.get('implicit') is None and f.d.get('defaulted'): bad = True
+            R.ob('C15.pool', not bad, {'func': f.q, 'special': f.d['sp']})
+            if bad: R.find('C15.pool', f, 'propagates', 'non_propagating %s propagates the wrapped value: a copied / moved machine would share the root pointer of its source' % f.d['sp'])
+    # (b) occurrences stored in the pool hold no pointer / reference to a machine
+    for r in F.records:
+        if r['loc'].startswith('boost/msm/backmp11/') and r['n'] in ('deferred_event', 'completion_event_occurrence', 'event_occurrence'):
+            R.anchor('pool-class:' + r['n'])
+            for fd in r['fields']:
+                t = F.strs[fd['t']]
+                bad = ('state_machine' in t and (t.rstrip().endswith('*') or t.rstrip().endswith('&'))) or (fd['n'] == 'm_event' and (t.rstrip().endswith('&') or t.rstrip().endswith('*')))
+                R.ob('C15.pool', not bad, {'record': Facts.short(F.strs[r['t']], 80), 'field': fd['n'], 'type': Facts.short(t, 60)})
+                if bad: R.find('C15.pool', ('boost/msm/backmp11/common_types.hpp', r['q']), 'field:' + fd['n'], 'pooled occurrence holds %s %s: a copied machine\'s pending events would act on / read from the original' % (Facts.short(t, 80), fd['n']), where=r['loc'], instance=Facts.short(F.strs[r['t']], 160))
+    # (c) backmp11 copy / move constructors delegate to the default constructor and then assign
+    for f in F.funcs:
+        if backend_of(f) == 'backmp11' and f.cls == 'state_machine_base' and f.d.get('sp') in ('copy_ctor', 'move_ctor') and f.blocks:
+            R.seen(f); R.anchor('mp11-copy-ctor:' + f.d['sp'])
+            deleg = any(n and n['k'] == 'init' and n.get('delegating') for n in f.nodes)
+            assigns = any(n.get('op') == '=' for i, n in f.calls())
+            ok = deleg and assigns
+            R.ob('C15.ctor', ok, {'func': f.q, 'delegates_to_default_ctor': deleg, 'assigns': assigns})
+            if not ok: R.find('C15.ctor', f, 'shape', 'copy/move constructor must construct a wired machine (default constructor) and then assign the state; delegating=%s assigns=%s' % (deleg, assigns))
+    # (d) back / back11: a callable that captures the machine's address is stored in a member that do_copy copies
+    for f in F.funcs:
+        if backend_of(f) not in ('back', 'back11') or not f.blocks: continue
+        for i, q, op in queue_ops(f):
+            if op != 'push_back' or q not in ('MSGQ', 'DEFQ'): continue
+            dep = dependency_closure(f, i)
+            for d in dep:
+                bn = f.nodes[d]
+                if bn and bn['k'] == 'call' and bn.get('n') == 'bind' and len(bn['args']) >= 2:
+                    a1 = f.nodes[bn['args'][1]]
+                    if a1 and (a1['k'] == 'this' or (a1['k'] == 'mem' and a1['n'] == 'm_fsm')):
+                        R.seen(f); R.anchor('this-capture:' + backend_of(f))
+                        R.ob('C15.this', False, {'func': f.q, 'queue': q, 'bound_target': f.expr(bn['args'][1])})
+                        R.find('C15.this', f, 'this-capture:' + q, 'the callable stored in the %s is bound to the address of the machine it was submitted to (%s); do_copy copies that queue, so the copy\'s pending events are dispatched on the original machine' % ({'MSGQ': 'message queue', 'DEFQ': 'deferred queue'}[q], f.expr(bn['args'][1])), where=f.at(i))
